@@ -142,7 +142,7 @@ class RealMd5Part(Part):
         return res
 
 
-LISTS = [["65001"], ["1"], ["12"], ["0"], ["4294967295"], ["1", "12"], ["12", "123"], ["1", "12", "123"],
+LISTS = [["65537"], ["65536", "131077"], ["65001"], ["1"], ["12"], ["0"], ["4294967295"], ["1", "12"], ["12", "123"], ["1", "12", "123"],
          ["123", "12", "1"], ["65001", "65002"], ["64512", "4200000000"], ["10", "100", "1000"], ["65535", "5"]]
 
 
@@ -200,6 +200,12 @@ class TokenPart(Part):
             for a, b in itertools.permutations(lst, 2):
                 for sep in CTX:
                     lines.append(a + sep + b)
+            # other notations of a listed number are other text: asdot (high.low), hex, with thousands separators
+            for n in lst:
+                v = int(n)
+                hi, lo = divmod(v, 65536)
+                for t in ("%d.%d" % (hi, lo), "%d:%d" % (hi, lo), "0x%x" % v, "%X" % v, "{:,}".format(v), "%d.0" % v, "0.%d" % v if False else "AS%d.%d" % (hi, lo)):
+                    lines += [t, "ip address 10.%s.7 255.255.255.0" % t, "version %s" % t, "x %s y" % t]
         with seams.capture_logs():
             fa = FileAnonymizer(anon_pwd=False, anon_ip=False, salt=salt, as_numbers=list(lst))
             out = io.StringIO()
